@@ -323,6 +323,7 @@ func zzH_C20_synknock() {
 	isn, dport := zzU32(), zzU16()
 	zzAssume(dport != 22)
 	zzInject(c, zzSeg{sport: 40000, dport: dport, seq: isn, flags: tcp.SYN, window: 1000, peer: zzPeerIP})
+	zzFrames(c)
 	zzAssert(len(c.knockChan) == 1, "a TCP SYN enqueues exactly one knock for the scan detector")
 	if len(c.knockChan) == 1 {
 		k, ok := (<-c.knockChan).(KnockTCPPort)
@@ -392,3 +393,52 @@ func zzH_C02_synports() {
 func zzStubRandConst() uint32 { return 0x01020304 }
 
 func zzStubNoTCPChecksum(iph *ipv4.Header, data []byte) {}
+
+
+// C20/probe-knock: one probe of any kind - a TCP SYN from a peer the sensor can answer or
+// from one it cannot (no ARP or route entry: spoofed or off-link source), a UDP datagram
+// with 0..2 payload bytes to a port without a decoder, an ICMP echo request - is handed to
+// the scan detector exactly once, naming protocol, port and both addresses.
+func zzH_C20_probeknock() {
+	c, _ := zzCanary()
+	peer := zzPeerIP
+	if zzBool() {
+		peer = net.IPv4(192, 168, 7, 9) // no ARP entry, no route
+	}
+	eh := &ethernet.Frame{Source: zzPeerMAC, Destination: zzMyMAC, Type: 0x0800}
+	dport := zzU16()
+	kind := zzLen(0, 2)
+	switch kind {
+	case 0:
+		zzAssume(dport != 22)
+		zzDidPanic(func() {
+			zzInject(c, zzSeg{sport: 40000, dport: dport, seq: zzU32(), flags: tcp.SYN, window: 1000, peer: peer})
+		})
+	case 1:
+		zzAssume(zzAnd(zzAnd(dport != 53, dport != 123), zzAnd(zzAnd(dport != 1900, dport != 5060), zzAnd(dport != 161, dport != 162))))
+		n := zzLen(0, 2)
+		data := []byte{0x9c, 0x40, byte(dport >> 8), byte(dport), 0, byte(8 + n), 0, 0}
+		data = append(data, zzBytes(n)...)
+		iph := &ipv4.Header{Version: 4, Len: 20, TotalLen: 20 + len(data), Protocol: 17, Src: peer, Dst: zzMyIP, TTL: 64}
+		c.handleUDP(eh, iph, data)
+		zzQuiesce()
+	case 2:
+		data := []byte{8, 0, 0xf7, 0xff, 0, 1, 0, 1}
+		iph := &ipv4.Header{Version: 4, Len: 20, TotalLen: 20 + len(data), Protocol: 1, Src: peer, Dst: zzMyIP, TTL: 64}
+		c.handleICMP(eh, iph, data)
+	}
+	zzAssert(len(c.knockChan) == 1, "every probe is handed to the scan detector exactly once, whether or not the sensor can answer its source")
+	if len(c.knockChan) != 1 {
+		return
+	}
+	switch k := (<-c.knockChan).(type) {
+	case KnockTCPPort:
+		zzAssert(kind == 0 && k.DestinationPort == dport && k.SourceIP.Equal(peer) && k.DestinationIP.Equal(zzMyIP), "a TCP knock names the probed port and both addresses")
+	case KnockUDPPort:
+		zzAssert(kind == 1 && k.DestinationPort == dport && k.SourceIP.Equal(peer) && k.DestinationIP.Equal(zzMyIP), "a UDP knock names the probed port and both addresses")
+	case KnockICMP:
+		zzAssert(kind == 2 && k.SourceIP.Equal(peer) && k.DestinationIP.Equal(zzMyIP), "an ICMP knock names both addresses")
+	default:
+		zzAssert(false, "the knock is of the probe's protocol")
+	}
+}
